@@ -46,6 +46,14 @@ theorem fwdPar_eq_fwdMat (M : LinModel R) (x y : ℕ → R) (i : ℕ) :
 theorem force_e (M : LMat R) (i j : ℕ) (hi : i < M.rows) (hj : j < M.cols) : M.force.e i j = M.e i j :=
   force_e_aux M i j hi hj
 
+/-- the driver's tabulated triple product has the entries of `F_R · A · E_D` (resp. `F_D · B · E_R`) -/
+theorem mul3Forced_e (X Y Z : LMat R) (h : X.cols = Y.rows) (i j : ℕ) (hi : i < X.rows) (hj : j < Z.cols) :
+    (LMat.mul3Forced X Y Z).e i j = (X.mul (Y.mul Z)).e i j := by
+  unfold LMat.mul3Forced
+  rw [force_e_aux (X.mul (Y.mul Z).force) i j hi hj, mul_e, mul_e]
+  refine Finset.sum_congr rfl fun k hk => ?_
+  rw [force_e_aux (Y.mul Z) k j (by show k < Y.rows; rw [← h]; exact mem_range.mp hk) hj]
+
 /-- **get_matrix, function-backed model.**  `get_matrix()` has shape `(range_dim, domain_dim)`, its
     column `j` is `forward(e_j)`, and it is the matrix `F_R · A · E_D`. -/
 theorem getMatrix_columns (M : LinModel R) (hs : M.WellShaped) (hfn : M.matrixBacked = false) (i j : ℕ)
